@@ -232,6 +232,9 @@ func genAPI() {
 	// ---- sessions: Expired / Refresh / checkSessionCookie / createSession / cleanSessions -------
 	genSessionSteps(&sb, fset, f)
 
+	// ---- the key import as a critical section of apiKeysLock --------------------------------------
+	genKeyImportOrder(&sb, fset, f)
+
 	// ---- bridge permission (api/database.go) ---------------------------------------------------
 	fset2, f2 := parseFile("api/database.go")
 	bridge := ""
@@ -513,4 +516,107 @@ func genSessionSteps(sb *strings.Builder, fset *token.FileSet, f *ast.File) {
 		"  deriving DecidableEq, Repr\n")
 	fmt.Fprintf(sb, "\n/-- `checkSessionCookie` after the lookup, in source order. -/\ndef checkSessionCookieSteps : List CookieStep := [%s]\n", strings.Join(steps, ", "))
 	fmt.Fprintf(sb, "\n/-- `session.Expired` is `time.Now().After(validUntil)` (strictly after: true) or `!time.Now().Before(validUntil)` (false). -/\ndef sessionExpiredStrict : Bool := %s\n", strict)
+}
+
+// genKeyImportOrder ties the atomicity of the model's `updateAPIKeys` step to the source: it emits, in
+// source order, where updateAPIKeys takes apiKeysLock (released by a deferred Unlock, i.e. held to the
+// end), empties the key map, reads the configured keys and stores into the key map. The model treats
+// the import as ONE step (read the option + rebuild the map); that is the code only if the lock comes
+// first - pinned by theorem `key_import_is_one_critical_section`. It also checks that checkAPIKey
+// looks a key up under the same lock. Any other locking shape fails closed.
+func genKeyImportOrder(sb *strings.Builder, fset *token.FileSet, f *ast.File) {
+	fd := findFunc(f, "updateAPIKeys", "")
+	if fd == nil {
+		die("updateAPIKeys not found")
+	}
+	var order []string
+	seen := map[string]bool{}
+	add := func(ev string) {
+		if !seen[ev] {
+			seen[ev] = true
+			order = append(order, ev)
+		}
+	}
+	list := fd.Body.List
+	for i, st := range list {
+		switch stmtString(fset, st) {
+		case "apiKeysLock.Lock()":
+			if seen[".lock"] {
+				die("updateAPIKeys: apiKeysLock taken more than once")
+			}
+			if i+1 >= len(list) || stmtString(fset, list[i+1]) != "defer apiKeysLock.Unlock()" {
+				die("updateAPIKeys: apiKeysLock.Lock() must be followed by defer apiKeysLock.Unlock()")
+			}
+			add(".lock")
+			continue
+		case "defer apiKeysLock.Unlock()":
+			if i == 0 || stmtString(fset, list[i-1]) != "apiKeysLock.Lock()" {
+				die("updateAPIKeys: stray defer apiKeysLock.Unlock()")
+			}
+			continue
+		}
+		ast.Inspect(st, func(n ast.Node) bool {
+			switch x := n.(type) {
+			case *ast.FuncLit:
+				return false // the cleanup micro task runs later, on its own
+			case *ast.CallExpr:
+				fn := exprString(fset, x.Fun)
+				switch {
+				case fn == "configuredAPIKeys":
+					add(".readConfig")
+				case fn == "delete" && len(x.Args) == 2 && exprString(fset, x.Args[0]) == "apiKeys":
+					add(".clear")
+				case strings.HasPrefix(fn, "apiKeysLock."):
+					die("updateAPIKeys: unexpected %s() inside a statement", fn)
+				}
+			case *ast.AssignStmt:
+				for _, l := range x.Lhs {
+					if ie, ok := l.(*ast.IndexExpr); ok && exprString(fset, ie.X) == "apiKeys" {
+						add(".install")
+					}
+					if exprString(fset, l) == "apiKeys" {
+						die("updateAPIKeys: the key map itself is replaced (unknown shape)")
+					}
+				}
+			}
+			return true
+		})
+	}
+	for _, need := range []string{".lock", ".clear", ".readConfig", ".install"} {
+		if !seen[need] {
+			die("updateAPIKeys: %s not found", need)
+		}
+	}
+	// checkAPIKey: the lookup happens under the lock
+	fd = findFunc(f, "checkAPIKey", "")
+	if fd == nil {
+		die("checkAPIKey not found")
+	}
+	lockAt, lookupAt := -1, -1
+	for i, st := range fd.Body.List {
+		s := stmtString(fset, st)
+		if s == "apiKeysLock.Lock()" && i+1 < len(fd.Body.List) && stmtString(fset, fd.Body.List[i+1]) == "defer apiKeysLock.Unlock()" && lockAt < 0 {
+			lockAt = i
+		}
+		uses := false
+		ast.Inspect(st, func(n ast.Node) bool {
+			if id, ok := n.(*ast.Ident); ok && id.Name == "apiKeys" {
+				uses = true
+			}
+			return true
+		})
+		if uses && lookupAt < 0 {
+			lookupAt = i
+		}
+	}
+	if lockAt < 0 || lookupAt < 0 || lookupAt < lockAt {
+		die("checkAPIKey: the key lookup is not inside apiKeysLock.Lock(); defer apiKeysLock.Unlock()")
+	}
+	sb.WriteString("\n/-- What `updateAPIKeys` does to the shared key map and the option, in source order. -/\ninductive KeyImportOp\n" +
+		"  | lock         -- `apiKeysLock.Lock(); defer apiKeysLock.Unlock()` (held to the end of the import)\n" +
+		"  | clear        -- `delete(apiKeys, k)` for every key\n" +
+		"  | readConfig   -- `configuredAPIKeys()`\n" +
+		"  | install      -- `apiKeys[path] = token`\n" +
+		"  deriving DecidableEq, Repr\n")
+	fmt.Fprintf(sb, "\ndef updateAPIKeysOrder : List KeyImportOp := [%s]\n", strings.Join(order, ", "))
 }
